@@ -502,16 +502,16 @@ def _alarm(signum, frame):
 
 
 def decide(hist, cfgs, rcfg, plog):
-    """one call of the real decision function (guarded by a 2 s timer: a wrong jump offset can
-    make slide() spin forever)"""
+    """one call of the real decision function (guarded by a 1 s timer that keeps firing: a wrong
+    jump offset can make slide() spin forever, and one alarm may be swallowed, e.g. inside a __del__)"""
     import signal
 
     old = signal.signal(signal.SIGALRM, _alarm)
-    signal.setitimer(signal.ITIMER_REAL, 2.0)
+    signal.setitimer(signal.ITIMER_REAL, 1.0, 0.2)
     try:
         return ("ok", _LIB["F"].compute_next_steps(hist, cfgs, rcfg, plog))
     except ImplHang:
-        return ("exc", "no result within 2 s (endless slide)")
+        return ("exc", "no result within 1 s (endless slide)")
     except Exception as e:  # noqa
         return ("exc", f"{type(e).__name__}: {e}"[:300])
     finally:
